@@ -51,6 +51,7 @@ struct PutParameter<'a, Key, Value, DeleteHook>
     value: Value,
     admission_policy: &'a Arc<AdmissionPolicy<Key>>,
     stats_counter: &'a Arc<ConcurrentStatsCounter>,
+    ttl_ticker: &'a Arc<TTLTicker>,
 }
 
 struct PutWithTTLParameter<'a, Key, Value, DeleteHook>
@@ -120,6 +121,7 @@ impl<Key, Value> CommandExecutor<Key, Value>
                             value,
                             admission_policy: &admission_policy,
                             stats_counter: &stats_counter,
+                            ttl_ticker: &ttl_ticker,
                         }),
                     CommandType::PutWithTTL(key_description, value, ttl) =>
                         Self::put_with_ttl(PutWithTTLParameter {
@@ -130,6 +132,7 @@ impl<Key, Value> CommandExecutor<Key, Value>
                                 value,
                                 admission_policy: &admission_policy,
                                 stats_counter: &stats_counter,
+                                ttl_ticker: &ttl_ticker,
                             },
                             ttl,
                             ttl_ticker: &ttl_ticker,
@@ -190,6 +193,7 @@ impl<Key, Value> CommandExecutor<Key, Value>
         if put_parameters.store.is_present(put_parameters.key_description.key()) {
             return CommandStatus::Rejected(KeyAlreadyExists);
         }
+        Self::retire_dead_incarnation(&put_parameters);
         let status = put_parameters.admission_policy.maybe_add(
             put_parameters.key_description,
             put_parameters.delete_hook,
@@ -211,6 +215,7 @@ impl<Key, Value> CommandExecutor<Key, Value>
         if put_with_ttl_parameter.put_parameter.store.is_present(put_with_ttl_parameter.put_parameter.key_description.key()) {
             return CommandStatus::Rejected(KeyAlreadyExists);
         }
+        Self::retire_dead_incarnation(&put_with_ttl_parameter.put_parameter);
         let status = put_with_ttl_parameter.put_parameter.admission_policy.maybe_add(
             put_with_ttl_parameter.put_parameter.key_description,
             put_with_ttl_parameter.put_parameter.delete_hook,
@@ -230,6 +235,18 @@ impl<Key, Value> CommandExecutor<Key, Value>
             put_with_ttl_parameter.put_parameter.stats_counter.reject_key();
         }
         status
+    }
+
+    /// A key that is not readable anymore (its time_to_live has passed but `TTLTicker` is yet to sweep it) may still occupy the store.
+    /// Its entry, its weight and its ttl entry are removed before the key is put again, otherwise the new entry would overwrite the old one,
+    /// the old weight would stay charged and the old ttl entry would evict the new value.
+    fn retire_dead_incarnation<DeleteHook>(put_parameters: &PutParameter<Key, Value, DeleteHook>) where DeleteHook: Fn(Key) {
+        let _ = Self::delete(DeleteParameter {
+            store: put_parameters.store,
+            key: put_parameters.key_description.key(),
+            admission_policy: put_parameters.admission_policy,
+            ttl_ticker: put_parameters.ttl_ticker,
+        });
     }
 
     fn delete(delete_parameter: DeleteParameter<Key, Value>) -> CommandStatus {
